@@ -893,6 +893,21 @@ def log1p(x):
     return _ew1(lambda s: slog(Sym(1) + s), x)
 
 
+@model(_real_jnp.expm1)
+def expm1(x):
+    return _ew1(lambda s: sexp(s) - Sym(1), x)
+
+
+@model(_real_jax.nn.sigmoid, "nn.sigmoid")
+def nn_sigmoid(x):
+    return _ew1(lambda s: Sym(1) / (Sym(1) + sexp(-Sym.lift(s))), x)
+
+
+@model(_real_jax.nn.softplus, "nn.softplus")
+def nn_softplus(x):
+    return _ew1(lambda s: slog(Sym(1) + sexp(s)), x)
+
+
 @model(_real_jnp.tanh)
 def tanh(x):
     return _ew1(stanh, x)
@@ -1244,7 +1259,7 @@ jnp = _ns(
     zeros=zeros, ones=ones, zeros_like=zeros_like, ones_like=ones_like, asarray=asarray, array=array,
     arange=arange, concatenate=concatenate, hstack=hstack, stack=stack, reshape=reshape, flip=flip,
     expand_dims=expand_dims, atleast_1d=atleast_1d, squeeze=squeeze, exp=exp, log=log, log1p=log1p, tanh=tanh,
-    sqrt=sqrt, abs=abs_, clip=clip, minimum=minimum, maximum=maximum, where=where, sum=sum_, cumsum=cumsum,
+    sqrt=sqrt, abs=abs_, clip=clip, expm1=expm1, minimum=minimum, maximum=maximum, where=where, sum=sum_, cumsum=cumsum,
     mean=mean, isnan=isnan, all=all_, any=any_, allclose=allclose, unique=unique, linspace=linspace, isin=isin,
     logical_and=logical_and, invert=invert, prod=prod, max=max_, min=min_, diff=diff, argsort=argsort,
     isscalar=isscalar, ndim=ndim, shape=shape, tile=tile, repeat=repeat, take=take,
@@ -1254,7 +1269,8 @@ jnp = _ns(
 lax = _ns("lax", fori_loop=fori_loop, scatter_add=scatter_add, ScatterDimensionNumbers=ScatterDimensionNumbers,
           scan=lax_scan)
 tree_util = _ns("tree_util", tree_map=tree_map)
-jax = _ns("jax", numpy=jnp, lax=lax, vmap=vmap, checkpoint=_checkpoint, tree_util=tree_util,
+nn = _ns("jax.nn", sigmoid=nn_sigmoid, softplus=nn_softplus)
+jax = _ns("jax", numpy=jnp, lax=lax, vmap=vmap, checkpoint=_checkpoint, tree_util=tree_util, nn=nn,
           Array=object)
 
 DEFAULT_OVERRIDES = {
@@ -1327,6 +1343,7 @@ class Runtime:
                     g[name] = self.overrides[name]
                 elif inspect.isfunction(val) and (val.__module__ or "").split(".")[0] in self.PKGS:
                     g[name] = _Lazy(val, self)
+            g["super"] = sym_super        # builtin: zero-argument super() must find re-globalised methods
             self._gcache[key] = g
         return g
 
@@ -1412,6 +1429,47 @@ class Proxy:
         return f"Proxy({type(self._real).__name__})"
 
 
+class _SuperProxy:
+    def __init__(self, cls, obj):
+        object.__setattr__(self, "_cls", cls)
+        object.__setattr__(self, "_obj", obj)
+
+    def __getattr__(self, name):
+        cls, obj = self._cls, self._obj
+        real = real_of(obj)
+        mro = type(real).__mro__
+        start = mro.index(cls) + 1 if cls in mro else 0
+        for k in mro[start:]:
+            if name in k.__dict__:
+                st = k.__dict__[name]
+                if isinstance(st, staticmethod):
+                    return obj._rt.reglob(st.__func__) if isinstance(obj, Proxy) else st.__func__
+                if inspect.isfunction(st):
+                    if isinstance(obj, Proxy) and (unwrap(st).__module__ or "").split(".")[0] in obj._rt.PKGS:
+                        return types.MethodType(obj._rt.reglob(st), obj)
+                    return types.MethodType(st, obj)
+                if isinstance(st, property):
+                    return st.fget(obj)
+                return st
+        raise AttributeError(name)
+
+
+def sym_super(*args):
+    """replacement for the builtin `super` inside re-globalised code: zero-argument form resolved from the
+    caller's frame (`__class__` cell and first positional argument), methods found are re-globalised too."""
+    import sys as _sys
+    if args:
+        cls, obj = args
+        return _SuperProxy(cls, obj)
+    fr = _sys._getframe(1)
+    cls = fr.f_locals.get("__class__")
+    first = fr.f_code.co_varnames[0] if fr.f_code.co_argcount else None
+    obj = fr.f_locals.get(first)
+    if cls is None or obj is None:
+        raise Unsupported("super() outside a method")
+    return _SuperProxy(cls, obj)
+
+
 def real_of(obj):
     return object.__getattribute__(obj, "_real") if isinstance(obj, Proxy) else obj
 
@@ -1475,6 +1533,16 @@ def _zeval1(e, env, mp, memo):
                 return m.sqrt(a) if a >= 0 else float("nan")
         except OverflowError:
             return float("inf")
+        m = env.get("__model__")
+        if m is not None:
+            # contract-stub functions: use the solver model's interpretation at the evaluated arguments
+            vals = [_zeval(c, env, mp, memo) for c in ch]
+            app = e.decl()(*[rv(Fraction(str(mp.nstr(v, 40)) if mp is not None else repr(float(v)))) for v in vals])
+            r = m.eval(app, model_completion=True)
+            if z3.is_rational_value(r):
+                return _num(r.as_fraction(), mp)
+            if z3.is_algebraic_value(r):
+                return _num(r.approx(30).as_fraction(), mp)
         raise Unsupported(f"cannot evaluate uninterpreted function {nm}")
     vals = None
     if dk == z3.Z3_OP_ITE:
